@@ -392,8 +392,11 @@ def run(ctx):
         "values are Z without wrap-around: start, stop, stop + workers*chunk below 2^62 for the queue loops (size_t up to 2^64-1 for the split)",
         "queue loops: no shepherd is disabled during the loop (qthread_shep_ok true), no qt_loop_queue_addworker; iq->step >= 1 for TIMED",
         "sequential consistency; plain reads of iq->start/phase are single accesses",
-        "completion of the balance/qt_loop flavours (readFF / sinc / donecount wait) is observed on the real runtime (watchdog + "
-        "still-running counter + return-slot map), the blocking primitives themselves are C01/C03/C10"]
+        "third clause (loop_returns_after_all*): full/empty cells, sinc and donecount are abstract in Loops/Completion.v (readFF passes only a "
+        "full cell, the runtime's writeEF fills only an empty cell, qthread_spawn empties the return cell, one signal per task); that the real "
+        "primitives behave so is C01/C03/C05/C10; the slot map of that model is the one compared with the real qthread_spawn calls here, and "
+        "completion is also observed on the real runtime (watchdog + still-running counter)"]
+    ctx.cov["refuted_model_variants"] = ["aligned_slots_refuted (slot rules before 3745911)", "spawner_slots_refuted (slot rules before 1c7a534)"]
     broken = bool(mism) or not pr["ok"]
     if not broken:
         for (w, c) in ofail[:3]:
